@@ -145,6 +145,7 @@ type Sim struct {
 	spec     *RunSpec
 	rng      *RNG
 	tasks    []*Task
+	live     []*Task // unfinished tasks, ordered by id
 	res      *RunResult
 	base     int64 // global steps at run start
 	fair     bool
@@ -173,6 +174,7 @@ func (s *Sim) runSteps() int64 { return readSteps() - s.base }
 func (s *Sim) newTask(body func(t *Task)) *Task {
 	t := &Task{ID: len(s.tasks), resume: make(chan reply), body: body, parent: -1}
 	s.tasks = append(s.tasks, t)
+	s.live = append(s.live, t)
 	return t
 }
 
@@ -200,6 +202,7 @@ func (s *Sim) Run(spec *RunSpec) *RunResult {
 	s.spec = spec
 	s.rng = NewRNG(spec.Seed ^ 0x5eed5eed5eed5eed)
 	s.tasks = s.tasks[:0]
+	s.live = s.live[:0]
 	s.res = &RunResult{Results: make([][]string, len(spec.Tasks)), CallSteps: make([][]int64, len(spec.Tasks))}
 	s.base = readSteps()
 	s.fair = false
@@ -288,27 +291,19 @@ func hashSegs(segs [][2]int64) uint64 {
 
 func (s *Sim) unfinishedCallers() int {
 	n := 0
-	for _, t := range s.tasks[:len(s.spec.Tasks)] {
-		if t.state != stDone {
+	for _, t := range s.live {
+		if t.ID < len(s.spec.Tasks) {
 			n++
 		}
 	}
 	return n
 }
 
-func (s *Sim) unfinished() int {
-	n := 0
-	for _, t := range s.tasks {
-		if t.state != stDone {
-			n++
-		}
-	}
-	return n
-}
+func (s *Sim) unfinished() int { return len(s.live) }
 
 func (s *Sim) describe(what string) string {
 	d := what + ":"
-	for _, t := range s.tasks {
+	for _, t := range s.live {
 		st, begun, done, in := taskCounters(t)
 		state := [...]string{"runnable", "blocked", "condwait", "done"}[t.state]
 		d += fmt.Sprintf(" task%d{%s steps=%d calls=%d/%d inCall=%v blockedOn=%#x}", t.ID, state, st, done, begun, in, t.blockAddr)
@@ -328,7 +323,7 @@ func (s *Sim) runnable(t *Task) bool {
 
 func (s *Sim) runnables() []*Task {
 	var out []*Task
-	for _, t := range s.tasks {
+	for _, t := range s.live {
 		if s.runnable(t) {
 			out = append(out, t)
 		}
@@ -382,14 +377,7 @@ func (s *Sim) resumeTask(t *Task, budget int64) {
 	s.handle(req)
 }
 
-func (s *Sim) callsDoneTotal() int64 {
-	var n int64
-	for _, t := range s.tasks {
-		_, _, d, _ := taskCounters(t)
-		n += int64(d)
-	}
-	return n
-}
+func (s *Sim) callsDoneTotal() int64 { return readCallsDone() }
 
 func (s *Sim) recordSeg(id int, ran int64) {
 	segs := s.res.Trace.Segs
@@ -412,6 +400,12 @@ func (s *Sim) handle(req request) {
 		s.res.Faults.LockContend++
 	case ReqDone:
 		t.state = stDone
+		for i, x := range s.live {
+			if x == t {
+				s.live = append(s.live[:i], s.live[i+1:]...)
+				break
+			}
+		}
 	case ReqPoolPut:
 		s.pools[req.addr] = append(s.pools[req.addr], poolItem{val: req.val, by: t.ID})
 	case ReqPoolGet:
@@ -430,6 +424,7 @@ func (s *Sim) handle(req request) {
 		nt.parent = t.ID
 		nt.prio = s.rng.Intn(1 << 20)
 		s.tasks = append(s.tasks, nt)
+		s.live = append(s.live, nt)
 	case ReqCondWait:
 		t.state = stCondWait
 		t.blockAddr = req.addr
@@ -594,15 +589,16 @@ func (s *Sim) pickRR(run []*Task, q int64) (*Task, int64) {
 	if q < 1 {
 		q = 1
 	}
-	n := len(s.tasks)
-	for k := 0; k < n; k++ {
-		t := s.tasks[(s.rrNext+k)%n]
-		if s.runnable(t) {
-			s.rrNext = (t.ID + 1) % n
-			return t, q
+	// run is ordered by id: first runnable with id >= rrNext, else wrap around
+	pick := run[0]
+	for _, t := range run {
+		if t.ID >= s.rrNext {
+			pick = t
+			break
 		}
 	}
-	return run[0], q
+	s.rrNext = pick.ID + 1
+	return pick, q
 }
 
 func (s *Sim) pickExplicit(run []*Task) (*Task, int64) {
